@@ -1,6 +1,7 @@
 from xdsl.context import Context
 from xdsl.dialects import builtin, linalg
 from xdsl.dialects.arith import AddiOp, ConstantOp, ExtSIOp, MaxSIOp, MinSIOp, MuliOp, ShRSIOp, SubiOp, TruncIOp
+from xdsl.ir import Block, Region, SSAValue
 from xdsl.passes import ModulePass
 from xdsl.pattern_rewriter import (
     PatternRewriter,
@@ -8,7 +9,7 @@ from xdsl.pattern_rewriter import (
     RewritePattern,
     op_type_rewrite_pattern,
 )
-from xdsl.rewriter import InsertPoint
+from xdsl.rewriter import InsertPoint, Rewriter
 
 from snaxc.dialects.kernel import Parsable, RescaleOp
 
@@ -62,8 +63,22 @@ class LowerLinalgBody(RewritePattern):
             return
 
         # only works for non-fused kernels (only 1 kernel op)
-        if not isinstance(kernel_op.next_op, linalg.YieldOp):
+        if not isinstance(yield_op := kernel_op.next_op, linalg.YieldOp):
             return
+
+        # The equivalent region is written over its own block arguments: the operands of the kernel
+        # op in order, then the output. Rebuild the body over the block arguments of the linalg op,
+        # following the values the kernel op actually reads and the values the body actually yields.
+        old_block = linalg_op.body.block
+        new_block = Block(arg_types=[arg.type for arg in old_block.args])
+        value_map: dict[SSAValue, SSAValue] = dict(zip(old_block.args, new_block.args))
+        equivalent_block = kernel_op.equivalent_region.detach_block(0)
+        assert isinstance(equivalent_yield := equivalent_block.last_op, linalg.YieldOp)
+        value_map.update(zip(kernel_op.results, equivalent_yield.operands))
+        equivalent_block.erase_op(equivalent_yield)
+        read_values = [value_map.get(val, val) for val in (*kernel_op.operands, old_block.args[-1])]
+        Rewriter.inline_block(equivalent_block, InsertPoint.at_end(new_block), read_values)
+        new_block.add_op(linalg.YieldOp(*(value_map.get(val, val) for val in yield_op.operands)))
 
         # replace linalg op
         rewriter.replace_op(
@@ -71,7 +86,7 @@ class LowerLinalgBody(RewritePattern):
             linalg.GenericOp(
                 linalg_op.inputs,
                 linalg_op.outputs,
-                kernel_op.equivalent_region,
+                Region(new_block),
                 linalg_op.indexing_maps,
                 linalg_op.iterator_types,
                 linalg_op.result_types,
